@@ -53,6 +53,9 @@ pub struct Plan {
     pub max_delay_us: u64,
     /// answer successful shard uploads with Ok(false) ("already exists")
     pub shard_reply_exists: bool,
+    /// global-dedup answers are handed out the way the server does it: re-exported under a fresh HMAC key, without
+    /// file records (seed of the keys / lookup-table flags)
+    pub global_keyed_seed: Option<u64>,
 }
 
 pub struct Log {
@@ -262,11 +265,25 @@ impl VerifShardDedupProber for MonitoredClient {
     async fn query_for_global_dedup_shard(&self, prefix: &str, chunk_hash: &MerkleHash, salt: &[u8; 32]) -> Result<Option<PathBuf>, CasClientError> {
         let ord = self.log.next_ordinal(Op::QueryGlobal);
         self.log.push(self.ev(Op::QueryGlobal, true, ord, chunk_hash));
+        let mut return_err: Option<CasClientError> = None;
         let r = {
             let _g = self.gd_lock.lock().await;
             match self.inner.query_for_global_dedup_shard(prefix, chunk_hash, salt).await {
                 Ok(Some(staged)) => match &self.gd_final_dir {
                     Some(fd) => {
+                        let mut staged = staged;
+                        if let Some(seed) = self.plan.global_keyed_seed {
+                            let mut kr = Rng::new(seed ^ (ord as u64).wrapping_mul(0x9E37_79B9_7F4A_7C15));
+                            let mut key = [0u8; 32];
+                            kr.fill(&mut key);
+                            let keyed = mdb_shard::MDBShardFile::load_from_file(&staged).and_then(|sf| {
+                                sf.export_as_keyed_shard(staged.parent().unwrap(), MerkleHash::from(&key), std::time::Duration::from_secs(3600), false, kr.chance(1, 2), kr.chance(1, 2))
+                            });
+                            match keyed {
+                                Ok(k) => staged = k.path.clone(),
+                                Err(e) => return_err = Some(CasClientError::Other(format!("harness: keyed export of a global-dedup shard failed: {e}"))),
+                            }
+                        }
                         let dest = fd.join(staged.file_name().unwrap());
                         let publish = || -> std::io::Result<()> {
                             if !dest.exists() {
@@ -286,6 +303,10 @@ impl VerifShardDedupProber for MonitoredClient {
                 },
                 other => other,
             }
+        };
+        let r = match return_err {
+            Some(e) => Err(e),
+            None => r,
         };
         let mut e = self.ev(Op::QueryGlobal, false, ord, chunk_hash);
         e.ok = r.is_ok();
